@@ -1,5 +1,5 @@
 import QuillModel.Extracted.Time
-import QuillModel.Time.Cache
+import QuillModel.Props.C13
 /-!
 Side-conditions of the C13 theorems, re-proved for the tables and constants extracted from the current
 `StringFromTime.h` / `TimestampFormatter.h`. The model's own tables (`Time.modifierTable`, `Time.patchTable`, …)
@@ -47,5 +47,26 @@ theorem model_tables_coherent :
       (fun k => (String.ofList (Time.Tok.frac k).chars, k.width, 1000000000 / (k.value 1000000000))) := by
   refine ⟨by decide, by decide, ?_, by decide, by decide⟩
   intro ft; cases ft <;> decide
+
+/-- the patch switch of the model writes what the extracted table says: fill, width and argument per modifier -/
+theorem model_patch_text (h m s ts : Nat) :
+    [Time.FT.H, .M, .S, .I, .k, .l, .s].map (fun ft => Time.patchText ft h m s ts) =
+      [Time.padNum '0' 2 h, Time.padNum '0' 2 m, Time.padNum '0' 2 s,
+       Time.padNum '0' 2 (if h = 0 then 12 else if h > 12 then h - 12 else h), Time.padNum ' ' 2 h,
+       Time.padNum ' ' 2 (if h = 0 then 12 else if h > 12 then h - 12 else h), Time.padNum ' ' 10 ts] := rfl
+
+/-- **C13 (local time) for the recalculation period written in the current header**: the zone premise only has to
+    be stated for that period; positivity and divisibility of a half day are re-proved from the extracted value -/
+theorem C13_extracted (tz : Nat → Time.ZInfo)
+    (hconst : ∀ t t', t / Extracted.localPeriod = t' / Extracted.localPeriod → tz t = tz t')
+    (haligned : ∀ t, (tz t).off % (Extracted.localPeriod : Int) = 0)
+    (hlower : ∀ t, -(978307200 : Int) ≤ (tz t).off)
+    (p : List Char) (hs : Time.supportedToks (Time.lex p) = true) (hx : Time.hasX (Time.lex p) = false)
+    (hf : Time.fracCount (Time.lex p) ≤ 1) (nss : List Nat) (hr : ∀ ns ∈ nss, Time.InRange p ns) :
+    Time.renderAll Extracted.localPeriod tz p true nss =
+      some (nss.map (fun ns =>
+        Time.strftimeRef p (Time.mkTm (ns / 1000000000) (tz (ns / 1000000000))) (ns % 1000000000))) :=
+  Time.C13_local Extracted.localPeriod tz
+    ⟨time_local_period.1, time_local_period.2, hconst, haligned, hlower⟩ p hs hx hf nss hr
 
 end Obligations
